@@ -39,9 +39,9 @@ Proof.
   apply filter_In. split; [exact H | reflexivity].
 Qed.
 
-Lemma sound_upds_empty tbl l c p h :
+Lemma sound_upds_empty tbl l c p h w :
   forallb (fun a => negb (is_public tbl a)) (secs l) = true ->
-  Sound tbl {| kf := upds empty l; kcomp := c; kpriv := p; khd := h |}.
+  Sound tbl {| kf := upds empty l; kcomp := c; kpriv := p; khd := h; kwc := w |}.
 Proof.
   intros HF a Ha. simpl in Ha. apply upds_sec in Ha. destruct Ha as [Ha|Ha]; [discriminate|].
   apply In_secs in Ha. pose proof (forallb_In _ _ _ HF Ha) as H. simpl in H. apply negb_true_iff in H. exact H.
@@ -80,7 +80,7 @@ Proof. vm_compute. reflexivity. Qed.
 (* public() empties every CPrivate attribute, whatever the state it is applied to *)
 Lemma public_makes_clean k : Clean key_class (fst (exec p_public k)).
 Proof.
-  intros a Ha. apply key_private_inv in Ha. destruct k as [f c p h]. simpl in Ha.
+  intros a Ha. apply key_private_inv in Ha. destruct k as [f c p h wc]. simpl in Ha.
   destruct h;
   repeat (destruct Ha as [Ha|Ha]; [subst a; cbv; reflexivity|]); contradiction.
 Qed.
@@ -152,7 +152,7 @@ Qed.
 (* exports *)
 Lemma export_exprs_closed o k : forallb (fun le => expr_closed key_class (snd le)) (export_exprs o k) = true.
 Proof.
-  destruct k as [f c p h].
+  destruct k as [f c p h wc].
   destruct o; try destruct incl; try destruct priv; unfold export_exprs, info_exprs, hd_wif_expr; simpl khd; simpl kpriv; simpl kf;
   destruct h; try destruct p; try destruct (truthy (f "secret")); vm_compute; reflexivity.
 Qed.
@@ -160,7 +160,7 @@ Qed.
 Lemma default_exprs_public o k :
   default_export o = true -> forallb (fun le => expr_public key_class (snd le)) (export_exprs o k) = true.
 Proof.
-  destruct k as [f c p h].
+  destruct k as [f c p h wc].
   destruct o; try destruct incl; simpl; try discriminate; intros _; destruct h; vm_compute; reflexivity.
 Qed.
 
@@ -257,7 +257,7 @@ Lemma wpublic_three k :
   let k' := fst (wstep WPublic k) in
   blank (kf k' "key_private") = true /\ kf k' "wif" <> VSec /\ kf k' "_hdkey_object" <> VSec.
 Proof.
-  destruct k as [f c p h]. cbv.
+  destruct k as [f c p h wc]. cbv.
   destruct (f "wif") eqn:E; cbv; do 3 (rewrite ?E; cbv); repeat split; try reflexivity; discriminate.
 Qed.
 
